@@ -224,11 +224,14 @@ CHECKS = {
                  "race report with a caddy-l4 frame is a violation. Non-trivial = >= 2 connections overlapping in time (measured); distinct = distinct batch. The listener-wrapper "
                  "hand-over under slow consumers is exercised by C13."),
         "assumptions": ["interleavings are sampled, not enumerated; the race detector only sees executed accesses"],
-        "min_classes": {"quick": {"C08/race-detector-run": 20, "C08/gomaxprocs/1": 10, "C08/gomaxprocs/16": 10, "C08/workload/proxy-two-peers": 20, "C08/workload/openvpn-auth-echo": 20, "C08/workload/tee-echo": 20, "C08/workload/tls-sni-a-echo": 20, "C08/workload/tls-sni-b-take1-echo": 20, "C08/workload/udp-small-reads-echo": 40, "C08/workload/udp-deep-match-echo": 40, "C08/udp-everything-echoed": 100}},
+        "min_classes": {"quick": {"C08/race-detector-run": 20, "C08/gomaxprocs/1": 10, "C08/gomaxprocs/16": 10, "C08/workload/proxy-two-peers": 20, "C08/workload/openvpn-auth-echo": 20, "C08/workload/tee-echo": 20, "C08/workload/tls-sni-a-echo": 20, "C08/workload/tls-sni-b-take1-echo": 20, "C08/workload/udp-small-reads-echo": 40, "C08/workload/udp-deep-match-echo": 40, "C08/udp-everything-echoed": 100, "C08/workload/h2-victim-host-echo": 20, "C08/workload/h2-undefined-table-entry": 20, "C08/workload/tls-sni-c-proxied-over-tls": 20, "C08/workload/tls-sni-d-proxied-over-tls": 20, "C08/workload/subroute-fallthrough-echo": 20}},
         "runs": [
+            # (SSL_CERT_FILE: the harness's TLS upstream is verified by the proxy against the system roots - for this process, its own certificate)
             {"name": "crosstalk", "pkg": "./c08", "run": ".", "rapid_checks": {"quick": 40, "thorough": 3000}, "cpu": "1,2,4,16",
+             "env": {"SSL_CERT_FILE": "$VERIF/harness/c08/testdata/upstream-root.pem"},
              "shards": {"quick": 1, "thorough": 8}, "timeout": {"quick": 600, "thorough": 7200}},
             {"name": "race", "pkg": "./c08", "run": ".", "race": True, "rapid_checks": {"quick": 120, "thorough": 6000},
+             "env": {"SSL_CERT_FILE": "$VERIF/harness/c08/testdata/upstream-root.pem"},
              "shards": {"quick": 1, "thorough": 8}, "timeout": {"quick": 900, "thorough": 7200}},
         ],
     },
